@@ -674,6 +674,30 @@ std::vector<Workload> CuratedWorkloads() {
     w.legacy = k == 2 ? 3 : 2;
     out.push_back(w);
   }
+  // Deprecated predictive Edgebreaker traversal coding (writer stub
+  // legacy_eb.cc): open grid with per-vertex attributes, torus (split events),
+  // several components with a seamed attribute.
+  for (int k = 0; k < 3; ++k) {
+    Workload w;
+    w.kind = 0;
+    w.topo = k == 0 ? 0 : (k == 1 ? 1 : 2);
+    w.n = k == 1 ? 18 : 14;
+    w.gseed = ++gs;
+    AttDesc pos;
+    w.atts.push_back(pos);
+    if (k != 1) {
+      AttDesc n;
+      n.type = draco::GeometryAttribute::NORMAL;
+      n.mode = k == 2 ? 1 : 0;
+      w.atts.push_back(n);
+    }
+    w.method = 1;
+    w.qb[0] = 11;
+    w.qb[1] = 8;
+    w.espeed = w.dspeed = 3 + k;
+    w.legacy = 4;
+    out.push_back(w);
+  }
   return out;
 }
 
@@ -872,9 +896,15 @@ class Batch {
       if (!lr.Chance(1, 6)) continue;
       Workload &w = ws[i];
       if (w.kind == 0) {
-        w.method = 0;
         w.meta = 0;
-        w.legacy = 1;
+        if (lr.Chance(1, 2)) {
+          w.method = 0;
+          w.legacy = 1;
+        } else {
+          w.method = 1;
+          w.expert = 0;
+          w.legacy = 4;
+        }
       } else if (w.kind == 1) {
         w.method = 1;
         w.meta = 0;
